@@ -170,6 +170,8 @@ def apply(S, op, check):
                     return []
                 if e[s].otype is not None and other[s].otype is not None and e[s].otype != other[s].otype:
                     return []           # the engine only merges the halves of ONE object (same type)
+                if e[s].path and other[s].path and e[s].path != other[s].path:
+                    return []           # ... found at ONE path (a folder's side is never moved onto its own child's entry)
                 e[s] = other[s]
             elif k == "set_path":
                 s, p = op[2], op[3]
@@ -276,7 +278,7 @@ def main(tier):
                         "after every transition of an engine exploration over the C01 history list",
                    technique="explicit-state BFS over state-level call sequences + invariant monitor on the engine exploration",
                    assumptions=["field assignments are made with the preconditions the engine itself observes (a path needs an id; a side "
-                                "state is only moved between entries of the same object type)"])
+                                "state is only moved between entries of the same object type and path)"])
     rep.add_results(report.pmap(__name__, engine_jobs(tier), progress=500), part="engine-monitor")
     return rep.finish()
 
